@@ -47,9 +47,12 @@ func (h *storesHandler) serveKsmHTTP(w http.ResponseWriter, r *http.Request) {
 	// https://prometheus.io/docs/instrumenting/exposition_formats/#text-based-format
 	resHeader.Set("Content-Type", `text/plain; version=`+"0.0.4")
 
-	// Write KSM families
-	if err := metricsstore.NewMetricsWriter(h.stores...).WriteAll(w); err != nil {
-		log.Error(err, "Unable to write metrics")
+	// Write KSM families. A MetricsWriter walks all of its stores with the family headers of the first one, so it
+	// can only hold stores that share the same families: each registered kind gets its own writer.
+	for _, store := range h.stores {
+		if err := metricsstore.NewMetricsWriter(store).WriteAll(w); err != nil {
+			log.Error(err, "Unable to write metrics")
+		}
 	}
 
 	// Write extra metrics
